@@ -218,6 +218,23 @@ def q_long_bars(wmax):
     return Query(f"two/long_bars/w{wmax}", fn, ["int_ticks"], desc="bar splitting across 3/4 bars, short padded bars, recomposition")
 
 
+def q_late_signature(wmax):
+    """the meta track's first time signature arrives only at the second bar line; notes and rests cross bar lines before it"""
+    def fn(ctx):
+        a = abs_sequence([ts(3, 4, time=96), on(0, 60, 70, time=ctx.int("s0", 90, 92)), off(0, 60, time=ctx.int("e0", 100, 102)),
+                          on(0, 62, 70, time=ctx.int("s1", 160, 161)), off(0, 62, time=180)])
+        b = mk(ctx, [("ON", 0), "W", ("OFF", 0)], wmax, prefix="b", chan=(1, 1))
+        bars = Sequence.sequences_split_bars([a, b], 0)
+        outs = [x.sequence for tr in bars for x in tr]
+        comp = Composition.from_sequences([Bar.to_sequence(bars[0]), Bar.to_sequence(bars[1])])
+        outs += comp.to_sequences()
+        bad = [x for o in outs for x in all_int_times(o)]
+        ctx.note("non-integer times", bad)
+        ctx.must("int_ticks", not bad, disc="late_signature")
+        return [obs_rel(raw_rel(o)) for o in outs]
+    return Query(f"two/late_signature/w{wmax}", fn, ["int_ticks"], desc="first time signature only at the second bar line")
+
+
 def q_tokenise(flags, bins):
     def fn(ctx):
         tok = Tokeniser(num_tracks=2, velocity_bins=bins, flag_running_values=flags[0], flag_fuse_track=flags[1],
@@ -256,6 +273,7 @@ def queries(tier, seed):
     for name in ("merge", "concatenate", "split_bars", "split_bars_noq", "composition"):
         qs.append(q_two(name, 3 if tier == "quick" else 4))
     qs.append(q_long_bars(6))
+    qs.append(q_late_signature(6))
     qs.append(q_tokenise((True, True, True, True), 1))
     qs.append(q_tokenise((False, False, False, False), 2))
     if tier == "thorough":
